@@ -1,13 +1,763 @@
-//! C13: generators and executor (see DESIGN.md section 4, C13).
+//! C13: signatures verify only for the signed message and key, and interoperate (DESIGN.md section 4, C13).
+//!
+//! One case format, several generators (`kind` = "c13:rfc" | "c13:round" | "c13:flip" | "c13:garbage" | "c13:type" | "c13:cross"):
+//!   {"keys": [keyspec…], "ops": [op…]}
+//!   keyspec = {"alg", "src": "secret"|"seed"|"public" , "data": hex}  | {"alg", "src": "generate"}
+//!           | {"alg", "src": "jwk", "data": <jwk text>, "secret": bool} ; optional "fam": index of the key it is another import of
+//!           | {"src": "public_of"|"jwk_public_of"|"jwk_secret_of"|"secret_of", "of": i}      re-import of key i through the named export
+//!   op = {"op": "sign", "key": i, "msg": hex, "t": null|string, "expect"?: hex, "expect_pub"?: hex}
+//!      | {"op": "verify", "key": j, "msg": hex, "t": null|string, "sig": {"raw": hex} | {"by": i, "msg": hex, "t": null|string, "mut": M}}
+//!   M = null | {"flip": bit} | {"trunc": n} | {"extend": hex} | "neg_s" | "s_plus_n"
+//! Every op is self-contained (a verify names the signature it checks by how it is made), so op lists shrink freely.
+//! `out` = per op the dispatch outcome: sign ↦ {"ok": length} | {"err": kind}; verify ↦ true | false | {"err": kind} | {"sigerr": kind}.
+//! Signature bytes are never compared with the model (curve arithmetic is outside it); they are judged here:
+//! RFC 8032 §7.1 and RFC 6979 A.2.5 / A.2.6 vectors, determinism, own-signature verification, rejection of every mutation, low-S for secp256k1.
 use crate::rng::Rng;
-use serde_json::{json, Value};
+use aries_askar::kms::{KeyAlg, LocalKey};
+use aries_askar::{Error, ErrorKind};
+use serde_json::{json, Map, Value};
+use std::collections::HashMap;
+use std::str::FromStr;
 
-/// generated cases for this property (each a JSON object with "kind": "c13…")
-pub fn gen(_r: &mut Rng, _thorough: bool, _count: Option<usize>) -> Vec<Value> {
-    vec![]
+// ---------------------------------------------------------------------------------------------------------------------
+// small independent helpers
+
+fn kind_name(k: ErrorKind) -> &'static str {
+    match k {
+        ErrorKind::Backend => "Backend",
+        ErrorKind::Busy => "Busy",
+        ErrorKind::Custom => "Custom",
+        ErrorKind::Duplicate => "Duplicate",
+        ErrorKind::Encryption => "Encryption",
+        ErrorKind::Input => "Input",
+        ErrorKind::NotFound => "NotFound",
+        ErrorKind::Unexpected => "Unexpected",
+        ErrorKind::Unsupported => "Unsupported",
+    }
 }
 
-/// run one case against the real code; returns {"out": …, "oracle": […], "feat": {…}}
-pub fn exec(_case: &Value, _tag: &str) -> Value {
-    json!({"out": {"err": "not implemented"}})
+fn b64url(data: &[u8]) -> String {
+    const A: &[u8] = b"ABCDEFGHIJKLMNOPQRSTUVWXYZabcdefghijklmnopqrstuvwxyz0123456789-_";
+    let mut s = String::new();
+    for ch in data.chunks(3) {
+        let n = ((ch[0] as u32) << 16) | ((*ch.get(1).unwrap_or(&0) as u32) << 8) | (*ch.get(2).unwrap_or(&0) as u32);
+        s.push(A[(n >> 18) as usize & 63] as char);
+        s.push(A[(n >> 12) as usize & 63] as char);
+        if ch.len() > 1 { s.push(A[(n >> 6) as usize & 63] as char); }
+        if ch.len() > 2 { s.push(A[n as usize & 63] as char); }
+    }
+    s
+}
+
+fn unhex(s: &str) -> Vec<u8> { hex::decode(s).unwrap_or_default() }
+
+/// group orders, big-endian
+const N_P256: &str = "ffffffff00000000ffffffffffffffffbce6faada7179e84f3b9cac2fc632551";
+const N_K256: &str = "fffffffffffffffffffffffffffffffebaaedce6af48a03bbfd25e8cd0364141";
+const N_P384: &str = "ffffffffffffffffffffffffffffffffffffffffffffffffc7634d81f4372ddf581a0db248b0a77aecec196accc52973";
+const L_ED25519: &str = "1000000000000000000000000000000014def9dea2f79cd65812631a5cf5d3ed";
+
+fn order_of(alg: &str) -> Vec<u8> {
+    unhex(match alg { "p256" => N_P256, "k256" => N_K256, "p384" => N_P384, _ => L_ED25519 })
+}
+
+/// a + b over big-endian strings of equal length; None on overflow of the width
+fn be_add(a: &[u8], b: &[u8]) -> Option<Vec<u8>> {
+    let mut out = vec![0u8; a.len()];
+    let mut c = 0u16;
+    for i in (0..a.len()).rev() {
+        let s = a[i] as u16 + b[i] as u16 + c;
+        out[i] = s as u8;
+        c = s >> 8;
+    }
+    if c == 0 { Some(out) } else { None }
+}
+
+/// a - b (a >= b) over big-endian strings of equal length
+fn be_sub(a: &[u8], b: &[u8]) -> Vec<u8> {
+    let mut out = vec![0u8; a.len()];
+    let mut br = 0i16;
+    for i in (0..a.len()).rev() {
+        let mut d = a[i] as i16 - b[i] as i16 - br;
+        if d < 0 { d += 256; br = 1; } else { br = 0; }
+        out[i] = d as u8;
+    }
+    out
+}
+
+/// the scalar half of a signature as a big-endian number (Ed25519 stores S little-endian)
+fn s_of(alg: &str, sig: &[u8]) -> Vec<u8> {
+    let mut s = sig[sig.len() / 2..].to_vec();
+    if alg == "ed25519" { s.reverse(); }
+    s
+}
+
+fn with_s(alg: &str, sig: &[u8], s_be: &[u8]) -> Vec<u8> {
+    let mut s = s_be.to_vec();
+    if alg == "ed25519" { s.reverse(); }
+    let mut out = sig[..sig.len() / 2].to_vec();
+    out.extend_from_slice(&s);
+    out
+}
+
+fn sig_len_of(alg: &str) -> Option<usize> {
+    match alg { "ed25519" | "p256" | "k256" => Some(64), "p384" => Some(96), _ => None }
+}
+
+/// spellings the oracle itself vouches for (documented names); everything else is judged by the model comparison only
+fn vouched_type(alg: &str, t: Option<&str>) -> bool {
+    match (alg, t) {
+        (a, None) => sig_len_of(a).is_some(),
+        ("ed25519", Some(s)) => s == "EdDSA" || s == "eddsa",
+        ("p256", Some(s)) => s == "ES256" || s == "es256",
+        ("k256", Some(s)) => s == "ES256K" || s == "es256k",
+        ("p384", Some(s)) => s == "ES384" || s == "es384",
+        _ => false,
+    }
+}
+
+// ---------------------------------------------------------------------------------------------------------------------
+// executor
+
+struct K {
+    key: LocalKey,
+    alg: String,
+    has_secret: bool,
+    public: Option<Vec<u8>>,
+}
+
+fn build_key(spec: &Value, built: &[K]) -> Result<K, Error> {
+    let src = spec["src"].as_str().unwrap_or("");
+    let derived = matches!(src, "public_of" | "jwk_public_of" | "jwk_secret_of" | "secret_of");
+    let (key, alg, has_secret) = if derived {
+        let b = &built[spec["of"].as_u64().unwrap_or(0) as usize];
+        let kalg = b.key.algorithm();
+        let k = match src {
+            "public_of" => LocalKey::from_public_bytes(kalg, &b.key.to_public_bytes()?)?,
+            "jwk_public_of" => LocalKey::from_jwk(&b.key.to_jwk_public(None)?)?,
+            "jwk_secret_of" => LocalKey::from_jwk_slice(&b.key.to_jwk_secret()?)?,
+            _ => LocalKey::from_secret_bytes(kalg, &b.key.to_secret_bytes()?)?,
+        };
+        (k, b.alg.clone(), b.has_secret && (src == "jwk_secret_of" || src == "secret_of"))
+    } else {
+        let name = spec["alg"].as_str().unwrap_or("");
+        let kalg = KeyAlg::from_str(name)?;
+        let data = spec["data"].as_str().unwrap_or("");
+        match src {
+            "secret" => (LocalKey::from_secret_bytes(kalg, &unhex(data))?, name.to_string(), true),
+            "seed" => (LocalKey::from_seed(kalg, &unhex(data), None)?, name.to_string(), true),
+            "public" => (LocalKey::from_public_bytes(kalg, &unhex(data))?, name.to_string(), false),
+            "jwk" => (LocalKey::from_jwk(data)?, name.to_string(), spec["secret"].as_bool().unwrap_or(false)),
+            _ => (LocalKey::generate_with_rng(kalg, true)?, name.to_string(), true),
+        }
+    };
+    let public = key.to_public_bytes().ok().map(|b| b.to_vec());
+    Ok(K { key, alg, has_secret, public })
+}
+
+struct Ctx {
+    oracle: Vec<Value>,
+    feat: Map<String, Value>,
+    cache: HashMap<(usize, Vec<u8>, Option<String>), Result<Vec<u8>, &'static str>>,
+}
+
+impl Ctx {
+    fn bump(&mut self, k: &str) {
+        let n = self.feat.get(k).and_then(|v| v.as_u64()).unwrap_or(0);
+        self.feat.insert(k.to_string(), json!(n + 1));
+    }
+    fn fail(&mut self, sig: String, detail: Value) {
+        if self.oracle.len() < 20 { self.oracle.push(json!({"sig": sig, "detail": detail})); }
+    }
+}
+
+fn t_of(v: &Value) -> Option<String> { v["t"].as_str().map(|s| s.to_string()) }
+
+fn tclass(t: &Option<String>) -> &'static str { if t.is_some() { "typed" } else { "default" } }
+
+/// the signing step, with the checks every produced signature must pass (property, not model)
+fn do_sign(cx: &mut Ctx, keys: &[K], i: usize, msg: &[u8], t: &Option<String>) -> Result<Vec<u8>, &'static str> {
+    let ck = (i, msg.to_vec(), t.clone());
+    if let Some(r) = cx.cache.get(&ck) { return r.clone(); }
+    let k = &keys[i];
+    let r1 = k.key.sign_message(msg, t.as_deref());
+    let r2 = k.key.sign_message(msg, t.as_deref());
+    let res = match (r1, r2) {
+        (Ok(s1), Ok(s2)) => {
+            cx.bump("sign_ok");
+            cx.bump(&format!("sign_ok_{}", k.alg));
+            if s1 != s2 { cx.fail(format!("sign:not-deterministic:{}", k.alg), json!({"msg": hex::encode(msg), "a": hex::encode(&s1), "b": hex::encode(&s2)})); }
+            match sig_len_of(&k.alg) {
+                Some(n) if s1.len() == n => {}
+                _ => cx.fail(format!("sign:wrong-length:{}:{}", k.alg, s1.len()), json!({"msg": hex::encode(msg)})),
+            }
+            if !k.has_secret { cx.fail(format!("sign:ok-without-secret:{}", k.alg), json!({})); }
+            // the signature verifies under the signing key itself, with the same type argument
+            match k.key.verify_signature(msg, &s1, t.as_deref()) {
+                Ok(true) => {}
+                Ok(false) => cx.fail(format!("verify-own:true->false:{}:{}", k.alg, tclass(t)), json!({"msg": hex::encode(msg), "sig": hex::encode(&s1), "t": t})),
+                Err(e) => cx.fail(format!("verify-own:true->err:{}:{}:{}", kind_name(e.kind()), k.alg, tclass(t)), json!({"msg": hex::encode(msg), "t": t})),
+            }
+            // secp256k1: low-S form (s <= n - s)
+            if k.alg == "k256" && s1.len() == 64 {
+                let s = s_of("k256", &s1);
+                let neg = be_sub(&order_of("k256"), &s);
+                if s > neg { cx.fail("sign:high-s:k256".into(), json!({"sig": hex::encode(&s1)})); } else { cx.bump("k256_low_s"); }
+            }
+            Ok(s1)
+        }
+        (Err(e1), Err(e2)) => {
+            let n = kind_name(e1.kind());
+            cx.bump(&format!("sign_err_{}", n));
+            if e1.kind() != e2.kind() { cx.fail(format!("sign:not-deterministic-error:{}", k.alg), json!({})); }
+            if k.has_secret && vouched_type(&k.alg, t.as_deref()) {
+                cx.fail(format!("sign:ok->err:{}:{}:{}", n, k.alg, tclass(t)), json!({"msg": hex::encode(msg), "t": t}));
+            }
+            Err(n)
+        }
+        _ => { cx.fail(format!("sign:not-deterministic-outcome:{}", k.alg), json!({"msg": hex::encode(msg), "t": t})); Err("Nondeterministic") }
+    };
+    cx.cache.insert(ck, res.clone());
+    res
+}
+
+fn mutate(alg: &str, m: &Value, sig: &[u8]) -> Vec<u8> {
+    let mut s = sig.to_vec();
+    if let Some(name) = m.as_str() {
+        if sig.len() % 2 == 0 && !sig.is_empty() && sig_len_of(alg) == Some(sig.len()) {
+            let n = order_of(alg);
+            let sv = s_of(alg, sig);
+            if name == "neg_s" && sv <= n { return with_s(alg, sig, &be_sub(&n, &sv)); }
+            if name == "s_plus_n" { return with_s(alg, sig, &be_add(&sv, &n).unwrap_or(n.clone())); }
+        }
+        return s;
+    }
+    if let Some(b) = m["flip"].as_u64() {
+        let b = b as usize;
+        if b / 8 < s.len() { s[b / 8] ^= 1 << (b % 8); }
+    } else if let Some(n) = m["trunc"].as_u64() {
+        s.truncate(n as usize);
+    } else if let Some(h) = m["extend"].as_str() {
+        s.extend_from_slice(&unhex(h));
+    }
+    s
+}
+
+fn mut_class(m: &Value) -> &'static str {
+    if let Some(s) = m.as_str() { return if s == "neg_s" { "neg_s" } else { "s_plus_n" }; }
+    if m.is_null() { "none" } else if !m["flip"].is_null() { "flip" } else if !m["trunc"].is_null() { "trunc" } else { "extend" }
+}
+
+fn run_op(cx: &mut Ctx, keys: &[K], op: &Value) -> Value {
+    let i = op["key"].as_u64().unwrap_or(0) as usize;
+    if i >= keys.len() { return json!({"err": "nokey"}); }
+    let msg = unhex(op["msg"].as_str().unwrap_or(""));
+    let t = t_of(op);
+    if op["op"].as_str() == Some("sign") {
+        cx.bump("op_sign");
+        let r = do_sign(cx, keys, i, &msg, &t);
+        if let Ok(s) = &r {
+            if let Some(e) = op["expect"].as_str() {
+                if hex::encode(s) == e.to_lowercase() { cx.bump("rfc_vector_match"); } else {
+                    cx.fail(format!("sign:differs-from-rfc-vector:{}", keys[i].alg), json!({"msg": hex::encode(&msg), "got": hex::encode(s), "want": e}));
+                }
+            }
+        }
+        if let Some(e) = op["expect"].as_str() {
+            match keys[i].key.verify_signature(&msg, &unhex(e), t.as_deref()) {
+                Ok(true) => cx.bump("rfc_vector_verifies"),
+                other => cx.fail(format!("verify:rfc-vector-rejected:{}", keys[i].alg), json!({"msg": hex::encode(&msg), "sig": e, "got": format!("{:?}", other.map_err(|x| kind_name(x.kind())))})),
+            }
+        }
+        if let Some(e) = op["expect_pub"].as_str() {
+            if keys[i].public.as_ref().map(hex::encode).as_deref() == Some(&e.to_lowercase()) { cx.bump("rfc_pubkey_match"); } else {
+                cx.fail(format!("key:public-differs-from-rfc-vector:{}", keys[i].alg), json!({"got": keys[i].public.as_ref().map(hex::encode), "want": e}));
+            }
+        }
+        if !keys[i].has_secret && r.is_ok() { cx.fail(format!("sign:ok-without-secret:{}", keys[i].alg), json!({})); }
+        return match r { Ok(s) => json!({"ok": s.len()}), Err(n) => json!({"err": n}) };
+    }
+    cx.bump("op_verify");
+    let sj = &op["sig"];
+    // (signature bytes, expectation of the PROPERTY: Some(true) must verify, Some(false) must be exactly Ok(false), None must not be Ok(true))
+    let (sig, must): (Vec<u8>, Option<bool>);
+    let mut class = "raw";
+    let mut neg_s_ecdsa = false;
+    // unchanged signature under a type spelling the oracle does not vouch for: the dispatch decides (model comparison only)
+    let mut any = false;
+    if let Some(h) = sj["raw"].as_str() {
+        sig = unhex(h);
+        must = None;
+        cx.bump("verify_raw");
+    } else {
+        let by = sj["by"].as_u64().unwrap_or(0) as usize;
+        if by >= keys.len() { return json!({"err": "nokey"}); }
+        let smsg = unhex(sj["msg"].as_str().unwrap_or(""));
+        let st = t_of(sj);
+        let base = match do_sign(cx, keys, by, &smsg, &st) { Ok(s) => s, Err(n) => return json!({"sigerr": n}) };
+        let m = &sj["mut"];
+        class = mut_class(m);
+        sig = mutate(&keys[by].alg, m, &base);
+        let same_key = keys[by].alg == keys[i].alg && keys[by].public.is_some() && keys[by].public == keys[i].public;
+        let vouched = vouched_type(&keys[i].alg, t.as_deref());
+        let changed = sig != base || smsg != msg || !same_key;
+        if class == "neg_s" && keys[by].alg != "ed25519" && same_key && smsg == msg && sig != base { neg_s_ecdsa = true; }
+        if !changed && !vouched { any = true; }
+        must = if !changed { if vouched { Some(true) } else { None } }
+               else if neg_s_ecdsa { None }
+               else if vouched && same_key && (class == "flip" || class == "none" || class == "neg_s" || class == "s_plus_n") { Some(false) }
+               else { None };
+        if smsg != msg { cx.bump("verify_msg_changed"); }
+        if !same_key { cx.bump("verify_other_key"); }
+        cx.bump(&format!("verify_mut_{}", class));
+    }
+    let r = keys[i].key.verify_signature(&msg, &sig, t.as_deref());
+    let alg = keys[i].alg.clone();
+    let ctx = || json!({"alg": alg, "msg": hex::encode(&msg), "sig": hex::encode(&sig), "t": t, "op": op});
+    match &r {
+        Ok(true) => {
+            cx.bump("verify_true");
+            if neg_s_ecdsa { cx.bump(&format!("neg_s_accepted_{}", alg)); }
+            else if must != Some(true) && !any {
+                let what = if sj["raw"].is_string() { "garbage".to_string() } else { format!("altered-{}", class) };
+                cx.fail(format!("verify:false->true:{}:{}", what, alg), ctx());
+            }
+        }
+        Ok(false) => {
+            cx.bump("verify_false");
+            if neg_s_ecdsa { cx.bump(&format!("neg_s_rejected_{}", alg)); }
+            if must == Some(true) { cx.fail(format!("verify:true->false:{}:{}", alg, tclass(&t)), ctx()); }
+        }
+        Err(e) => {
+            let n = kind_name(e.kind());
+            cx.bump(&format!("verify_err_{}", n));
+            if must == Some(true) { cx.fail(format!("verify:true->err:{}:{}:{}", n, alg, tclass(&t)), ctx()); }
+            if must == Some(false) { cx.fail(format!("verify:false->err:{}:{}:{}", n, alg, class), ctx()); }
+        }
+    }
+    match r { Ok(b) => json!(b), Err(e) => json!({"err": kind_name(e.kind())}) }
+}
+
+pub fn exec(case: &Value, _tag: &str) -> Value {
+    let mut cx = Ctx { oracle: vec![], feat: Map::new(), cache: HashMap::new() };
+    let mut keys: Vec<K> = vec![];
+    for (i, spec) in case["keys"].as_array().cloned().unwrap_or_default().iter().enumerate() {
+        match build_key(spec, &keys) {
+            Ok(k) => {
+                cx.bump(&format!("key_{}", spec["src"].as_str().unwrap_or("?")));
+                if let Some(f) = spec["fam"].as_u64() {
+                    // a second import of the same key pair must expose the same public key
+                    if keys.get(f as usize).map_or(false, |b| b.public != k.public) {
+                        cx.fail(format!("key:import-routes-disagree:{}", k.alg), json!({"key": i, "fam": f}));
+                    }
+                }
+                if let Some(of) = spec["of"].as_u64() {
+                    if keys.get(of as usize).map_or(false, |b| b.public != k.public) {
+                        cx.fail(format!("key:reimport-changes-public:{}:{}", k.alg, spec["src"].as_str().unwrap_or("")), json!({"key": i}));
+                    }
+                }
+                keys.push(k);
+            }
+            Err(e) => {
+                let n = kind_name(e.kind());
+                return json!({"out": {"keyerr": i, "err": n},
+                    "oracle": [{"sig": format!("key:construct:ok->err:{}:{}", n, spec["src"].as_str().unwrap_or("")), "detail": spec}], "feat": cx.feat});
+            }
+        }
+    }
+    let mut out = vec![];
+    for op in case["ops"].as_array().cloned().unwrap_or_default().iter() {
+        out.push(run_op(&mut cx, &keys, op));
+    }
+    cx.bump(&format!("case_{}", case["kind"].as_str().unwrap_or("c13").trim_start_matches("c13:")));
+    json!({"out": out, "oracle": cx.oracle, "feat": cx.feat})
+}
+
+// ---------------------------------------------------------------------------------------------------------------------
+// generators
+
+const SIG_ALGS: [&str; 4] = ["ed25519", "p256", "k256", "p384"];
+const OTHER_ALGS: [&str; 12] = ["a128gcm", "a256gcm", "a128cbchs256", "a256cbchs512", "a128kw", "a256kw", "bls12381g1", "bls12381g2", "bls12381g1g2", "c20p", "xc20p", "x25519"];
+
+fn native(alg: &str) -> &'static str {
+    match alg { "ed25519" => "EdDSA", "p256" => "ES256", "k256" => "ES256K", _ => "ES384" }
+}
+
+fn secret_len(alg: &str) -> usize { if alg == "p384" { 48 } else { 32 } }
+
+/// secret bytes that are a valid scalar for every curve: top byte below 0x7f and not all zero
+fn rand_secret(r: &mut Rng, alg: &str) -> Vec<u8> {
+    let mut b = r.bytes(secret_len(alg));
+    if alg != "ed25519" { b[0] &= 0x7f; b[1] |= 1; }
+    b
+}
+
+fn base_key(r: &mut Rng, alg: &str, how: usize) -> Value {
+    match how % 3 {
+        0 => json!({"alg": alg, "src": "secret", "data": hex::encode(rand_secret(r, alg))}),
+        1 => json!({"alg": alg, "src": "seed", "data": hex::encode(r.bytes(32))}),
+        _ => json!({"alg": alg, "src": "generate"}),
+    }
+}
+
+const LENS: [usize; 22] = [0, 1, 2, 3, 7, 8, 15, 16, 17, 31, 32, 33, 55, 56, 63, 64, 65, 111, 112, 127, 128, 129];
+
+fn rand_msg(r: &mut Rng, thorough: bool) -> Vec<u8> {
+    let n = match r.below(10) {
+        0..=5 => *r.pick(&LENS),
+        6..=7 => r.below(300),
+        8 => 1023,
+        _ => if thorough { r.below(5000) } else { r.below(1200) },
+    };
+    r.bytes(n)
+}
+
+fn sign_op(key: usize, msg: &[u8], t: Option<&str>) -> Value { json!({"op": "sign", "key": key, "msg": hex::encode(msg), "t": t}) }
+
+fn verify_op(key: usize, msg: &[u8], t: Option<&str>, by: usize, smsg: &[u8], st: Option<&str>, m: Value) -> Value {
+    json!({"op": "verify", "key": key, "msg": hex::encode(msg), "t": t, "sig": {"by": by, "msg": hex::encode(smsg), "t": st, "mut": m}})
+}
+
+fn verify_raw(key: usize, msg: &[u8], t: Option<&str>, raw: &[u8]) -> Value {
+    json!({"op": "verify", "key": key, "msg": hex::encode(msg), "t": t, "sig": {"raw": hex::encode(raw)}})
+}
+
+/// the type-string spelling classes (every class of the normaliser: case, the three separators, empty, near misses, non-ASCII,
+/// strings around the 64-byte buffer bound counted in UTF-8 bytes AFTER normalisation)
+fn type_strings(r: &mut Rng, thorough: bool) -> Vec<String> {
+    let mut v: Vec<String> = vec![];
+    for n in ["eddsa", "es256", "es256k", "es384"] {
+        v.push(n.to_string());
+        v.push(n.to_uppercase());
+    }
+    for s in ["EdDSA", "Ed-DSA", "ed_dsa", " e d d s a ", "ES-256", "ES_256", "es 256", "E-S-2-5-6-K", "es256-k", "ES256_K", "-es384-", "__ES__384__", "Es384",
+              "--EDDSA", "eddsa  ", "eS256k"] { v.push(s.to_string()); }
+    v.push(format!("{}eddsa", "-".repeat(100)));
+    v.push(format!("es{}256{}", "_".repeat(70), " ".repeat(70)));
+    v.push(format!("E{}S384", "- _".repeat(40)));
+    for s in ["", "-", " _-", "e", "es", "es25", "es2566", "es256kk", "es512", "es385", "eddsa1", "xeddsa", "ecdsa", "ed25519", "p256", "es256r", "rs256",
+              "hs256", "es-256-k-", "es.256", "es\t256", "es\n256", "es256\u{0}", "\u{0}", "es+256", "es/256", "es256=", "\"es256\"", "es256,es384"] { v.push(s.to_string()); }
+    // non-ASCII: only ASCII letters are lower-cased, only the three ASCII separators are dropped
+    for s in ["ĖdDSA", "es256\u{212a}", "ES256\u{212a}", "ｅｓ２５６", "es２56", "édDSA", "eddſa", "İS256", "es\u{a0}256", "es\u{2013}256", "es\u{2212}256", "es\u{ff0d}256",
+              "es\u{ff3f}256", "es\u{3000}256", "es256\u{301}", "𝐞𝐬256", "es256\u{1f511}", "εδδσα", "еs256", "ЕS256"] { v.push(s.to_string()); }
+    // the 64-byte buffer: bytes of the normalised string decide
+    v.push("a".repeat(63));
+    v.push("a".repeat(64));
+    v.push("a".repeat(65));
+    v.push("A".repeat(64));
+    v.push(format!("{}{}", "a".repeat(64), "-".repeat(100)));
+    v.push(format!("{}{}", "-_ ".repeat(50), "a".repeat(64)));
+    v.push(format!("{}{}a", "-_ ".repeat(50), "a".repeat(64)));
+    v.push(format!("{}é", "a".repeat(62)));
+    v.push(format!("{}é", "a".repeat(63)));
+    v.push(format!("{}€", "a".repeat(61)));
+    v.push(format!("{}€", "a".repeat(62)));
+    v.push(format!("{}𝐞", "a".repeat(60)));
+    v.push(format!("{}𝐞", "a".repeat(61)));
+    v.push("𝐞".repeat(16));
+    v.push("𝐞".repeat(17));
+    v.push(format!("{}a", "𝐞".repeat(16)));
+    v.push("é".repeat(32));
+    v.push("é".repeat(33));
+    v.push(format!("eddsa{}", "x".repeat(59)));
+    v.push(format!("eddsa{}", "x".repeat(60)));
+    v.push(format!("eddsa{}", "-".repeat(60)));
+    v.push(format!("es256{}", " ".repeat(1000)));
+    v.push(format!("es256{}", "k".repeat(200)));
+    v.push("ES384".repeat(13));
+    v.push("x".repeat(1000));
+    v.push("€".repeat(400));
+    // random strings over an alphabet that makes hits and near misses likely
+    let alpha: Vec<char> = "edsaEDSA256384kK-_ \u{212a}é\t".chars().collect();
+    for _ in 0..(if thorough { 400 } else { 40 }) {
+        let n = r.below(9);
+        v.push((0..n).map(|_| *r.pick(&alpha)).collect());
+    }
+    // random decorations of the accepted names
+    for _ in 0..(if thorough { 400 } else { 40 }) {
+        let base: Vec<char> = r.pick(&["eddsa", "es256", "es256k", "es384"]).chars().collect();
+        let mut s = String::new();
+        for c in base {
+            while r.chance(1, 4) { s.push(*r.pick(&['-', '_', ' '])); }
+            s.push(if r.chance(1, 2) { c.to_ascii_uppercase() } else { c });
+        }
+        while r.chance(1, 3) { s.push(*r.pick(&['-', '_', ' '])); }
+        if r.chance(1, 10) { s.push(*r.pick(&['x', '\u{212a}', '.', '1'])); }
+        v.push(s);
+    }
+    v
+}
+
+struct RfcKey { alg: &'static str, secret: &'static str, public: &'static str, jwk_extra: &'static str, sigs: &'static [(&'static str, &'static str)] }
+
+/// RFC 8032 section 7.1 (TEST 1, 2, 3, SHA(abc)); RFC 6979 A.2.5 (P-256 / SHA-256) and A.2.6 (P-384 / SHA-384), messages "sample", "test".
+/// `public` = the library's public-bytes form: Ed25519 the 32 bytes; ECDSA the SEC1 compressed point (02|03 by parity of Uy, then Ux);
+/// `jwk_extra` = Uy for the JWK.
+const RFC_KEYS: &[RfcKey] = &[
+    RfcKey { alg: "ed25519", secret: "9d61b19deffd5a60ba844af492ec2cc44449c5697b326919703bac031cae7f60",
+        public: "d75a980182b10ab7d54bfed3c964073a0ee172f3daa62325af021a68f707511a", jwk_extra: "",
+        sigs: &[("", "e5564300c360ac729086e2cc806e828a84877f1eb8e5d974d873e065224901555fb8821590a33bacc61e39701cf9b46bd25bf5f0595bbe24655141438e7a100b")] },
+    RfcKey { alg: "ed25519", secret: "4ccd089b28ff96da9db6c346ec114e0f5b8a319f35aba624da8cf6ed4fb8a6fb",
+        public: "3d4017c3e843895a92b70aa74d1b7ebc9c982ccf2ec4968cc0cd55f12af4660c", jwk_extra: "",
+        sigs: &[("72", "92a009a9f0d4cab8720e820b5f642540a2b27b5416503f8fb3762223ebdb69da085ac1e43e15996e458f3613d0f11d8c387b2eaeb4302aeeb00d291612bb0c00")] },
+    RfcKey { alg: "ed25519", secret: "c5aa8df43f9f837bedb7442f31dcb7b166d38535076f094b85ce3a2e0b4458f7",
+        public: "fc51cd8e6218a1a38da47ed00230f0580816ed13ba3303ac5deb911548908025", jwk_extra: "",
+        sigs: &[("af82", "6291d657deec24024827e69c3abe01a30ce548a284743a445e3680d7db5ac3ac18ff9b538d16f290ae67f760984dc6594a7c15e9716ed28dc027beceea1ec40a")] },
+    RfcKey { alg: "ed25519", secret: "833fe62409237b9d62ec77587520911e9a759cec1d19755b7da901b96dca3d42",
+        public: "ec172b93ad5e563bf4932c70e1245034c35467ef2efd4d64ebf819683467e2bf", jwk_extra: "",
+        sigs: &[("ddaf35a193617abacc417349ae20413112e6fa4e89a97ea20a9eeee64b55d39a2192992a274fc1a836ba3c23a3feebbd454d4423643ce80e2a9ac94fa54ca49f",
+                 "dc2a4459e7369633a52b1bf277839a00201009a3efbf3ecb69bea2186c26b58909351fc9ac90b3ecfdfbc7c66431e0303dca179c138ac17ad9bef1177331a704")] },
+    RfcKey { alg: "p256", secret: "c9afa9d845ba75166b5c215767b1d6934e50c3db36e89b127b8a622b120f6721",
+        public: "0360fed4ba255a9d31c961eb74c6356d68c049b8923b61fa6ce669622e60f29fb6",
+        jwk_extra: "7903fe1008b8bc99a41ae9e95628bc64f2f1b20c2d7e9f5177a3c294d4462299",
+        sigs: &[("73616d706c65", "efd48b2aacb6a8fd1140dd9cd45e81d69d2c877b56aaf991c34d0ea84eaf3716f7cb1c942d657c41d436c7a1b6e29f65f3e900dbb9aff4064dc4ab2f843acda8"),
+                ("74657374", "f1abb023518351cd71d881567b1ea663ed3efcf6c5132b354f28d3b0b7d38367019f4113742a2b14bd25926b49c649155f267e60d3814b4c0cc84250e46f0083")] },
+    RfcKey { alg: "p384", secret: "6b9d3dad2e1b8c1c05b19875b6659f4de23c3b667bf297ba9aa47740787137d896d5724e4c70a825f872c9ea60d2edf5",
+        public: "02ec3a4e415b4e19a4568618029f427fa5da9a8bc4ae92e02e06aae5286b300c64def8f0ea9055866064a254515480bc13",
+        jwk_extra: "8015d9b72d7d57244ea8ef9ac0c621896708a59367f9dfb9f54ca84b3f1c9db1288b231c3ae0d4fe7344fd2533264720",
+        sigs: &[("73616d706c65", "94edbb92a5ecb8aad4736e56c691916b3f88140666ce9fa73d64c4ea95ad133c81a648152e44acf96e36dd1e80fabe4699ef4aeb15f178cea1fe40db2603138f130e740a19624526203b6351d0a3a94fa329c145786e679e7b82c71a38628ac8"),
+                ("74657374", "8203b63d3c853e8d77227fb377bcf7b7b772e97892a80f36ab775d509d7a5feb0542a7f0812998da8f1dd3ca3cf023dbddd0760448d42d8a43af45af836fce4de8be06b485e9b61b827c2f13173923e06a739f040649a667bf3b828246baa5a5")] },
+];
+
+fn rfc_jwk(k: &RfcKey, with_secret: bool) -> String {
+    let x = if k.alg == "ed25519" { unhex(k.public) } else { unhex(k.public)[1..].to_vec() };
+    let mut m = Map::new();
+    if k.alg == "ed25519" {
+        m.insert("kty".into(), json!("OKP"));
+        m.insert("crv".into(), json!("Ed25519"));
+        m.insert("x".into(), json!(b64url(&x)));
+    } else {
+        m.insert("kty".into(), json!("EC"));
+        m.insert("crv".into(), json!(if k.alg == "p256" { "P-256" } else { "P-384" }));
+        m.insert("x".into(), json!(b64url(&x)));
+        m.insert("y".into(), json!(b64url(&unhex(k.jwk_extra))));
+    }
+    if with_secret { m.insert("d".into(), json!(b64url(&unhex(k.secret)))); }
+    Value::Object(m).to_string()
+}
+
+fn gen_rfc(idx: usize) -> Value {
+    let k = &RFC_KEYS[idx % RFC_KEYS.len()];
+    let keys = vec![
+        json!({"alg": k.alg, "src": "secret", "data": k.secret}),
+        json!({"alg": k.alg, "src": "jwk", "data": rfc_jwk(k, true), "secret": true, "fam": 0}),
+        json!({"alg": k.alg, "src": "jwk", "data": rfc_jwk(k, false), "secret": false, "fam": 0}),
+        json!({"alg": k.alg, "src": "public", "data": k.public, "fam": 0}),
+        json!({"src": "jwk_secret_of", "of": 0}),
+        json!({"src": "public_of", "of": 1}),
+    ];
+    let mut ops = vec![];
+    for (m, s) in k.sigs {
+        let msg = unhex(m);
+        for signer in [0usize, 1, 4] {
+            for t in [None, Some(native(k.alg))] {
+                let mut o = sign_op(signer, &msg, t);
+                o["expect"] = json!(s);
+                o["expect_pub"] = json!(k.public);
+                ops.push(o);
+            }
+        }
+        // (the RFC's literal signature is presented to the signing key by the executor, see "expect")
+        for v in 0..6 { ops.push(verify_op(v, &msg, None, 4, &msg, Some(native(k.alg)), Value::Null)); }
+        for v in 0..6 { ops.push(verify_op(v, &msg, Some(native(k.alg)), 0, &msg, None, Value::Null)); }
+        // public-only imports cannot sign
+        ops.push(sign_op(2, &msg, None));
+        ops.push(sign_op(3, &msg, Some(native(k.alg))));
+        ops.push(sign_op(5, &msg, None));
+    }
+    json!({"kind": "c13:rfc", "keys": keys, "ops": ops})
+}
+
+/// one key pair through every import route
+fn family(r: &mut Rng, alg: &str, how: usize) -> Vec<Value> {
+    vec![
+        base_key(r, alg, how),
+        json!({"src": "public_of", "of": 0}),
+        json!({"src": "jwk_secret_of", "of": 0}),
+        json!({"src": "jwk_public_of", "of": 0}),
+        json!({"src": "secret_of", "of": 0}),
+        json!({"src": "jwk_public_of", "of": 2}),
+    ]
+}
+
+fn gen_round(r: &mut Rng, idx: usize, thorough: bool) -> Value {
+    let alg = SIG_ALGS[idx % 4];
+    let keys = family(r, alg, idx / 4);
+    let signers = [0usize, 2, 4];
+    let mut ops = vec![];
+    let nmsg = if thorough { 10 } else { 5 };
+    for mi in 0..nmsg {
+        let msg = if mi == 0 { vec![] } else { rand_msg(r, thorough) };
+        let s = signers[mi % 3];
+        let t: Option<&str> = if r.chance(1, 2) { None } else { Some(native(alg)) };
+        ops.push(sign_op(s, &msg, t));
+        for v in 0..6 {
+            let vt: Option<&str> = if r.chance(1, 2) { None } else { Some(native(alg)) };
+            ops.push(verify_op(v, &msg, vt, s, &msg, t, Value::Null));
+        }
+        // public-only members refuse to sign
+        ops.push(sign_op(*r.pick(&[1usize, 3, 5]), &msg, t));
+        // a changed message, a changed signature
+        let mut other = msg.clone();
+        if other.is_empty() { other.push(0); } else { let p = r.below(other.len()); other[p] ^= 1 << r.below(8); }
+        ops.push(verify_op(r.below(6), &other, None, s, &msg, t, Value::Null));
+        let sl = sig_len_of(alg).unwrap();
+        ops.push(verify_op(r.below(6), &msg, None, s, &msg, t, json!({"flip": r.below(sl * 8)})));
+        ops.push(verify_op(r.below(6), &msg, None, s, &msg, t, json!({"trunc": r.below(sl)})));
+        ops.push(verify_op(r.below(6), &msg, None, s, &msg, t, { let n = 1 + r.below(40); json!({"extend": hex::encode(r.bytes(n))}) }));
+        ops.push(verify_op(r.below(6), &msg, None, s, &msg, t, json!("neg_s")));
+        ops.push(verify_op(r.below(6), &msg, None, s, &msg, t, json!("s_plus_n")));
+    }
+    json!({"kind": "c13:round", "keys": keys, "ops": ops})
+}
+
+/// every single-bit mutation of a short message and of its signature
+fn gen_flip(r: &mut Rng, idx: usize, thorough: bool) -> Value {
+    let alg = SIG_ALGS[idx % 4];
+    let keys = vec![base_key(r, alg, idx / 4), json!({"src": "public_of", "of": 0})];
+    let mlen = if thorough { 1 + (idx / 4) % 16 } else { 1 + (idx / 4) % 4 };
+    let msg = r.bytes(mlen);
+    let t: Option<&str> = if (idx / 4) % 2 == 0 { None } else { Some(native(alg)) };
+    let mut ops = vec![sign_op(0, &msg, t), verify_op(1, &msg, t, 0, &msg, t, Value::Null)];
+    for b in 0..mlen * 8 {
+        let mut m2 = msg.clone();
+        m2[b / 8] ^= 1 << (b % 8);
+        ops.push(verify_op(b % 2, &m2, t, 0, &msg, t, Value::Null));
+    }
+    for b in 0..sig_len_of(alg).unwrap() * 8 {
+        ops.push(verify_op(b % 2, &msg, t, 0, &msg, t, json!({"flip": b})));
+    }
+    // the empty message has no bit to flip: extend it instead
+    ops.push(verify_op(1, &[], t, 0, &msg, t, Value::Null));
+    json!({"kind": "c13:flip", "keys": keys, "ops": ops})
+}
+
+/// arbitrary byte strings of every length 0..=200 as signature, plus structured near-signatures
+fn gen_garbage(r: &mut Rng, idx: usize, thorough: bool) -> Value {
+    let alg = SIG_ALGS[idx % 4];
+    let keys = vec![base_key(r, alg, idx / 4), json!({"src": "public_of", "of": 0})];
+    let v = (idx / 4) % 2;
+    let msg = if idx % 3 == 0 { vec![] } else { rand_msg(r, false) };
+    let t: Option<&str> = if (idx / 8) % 2 == 0 { None } else { Some(native(alg)) };
+    let mut ops = vec![];
+    let top = if thorough { 300 } else { 200 };
+    for n in 0..=top {
+        let raw = match r.below(6) { 0 => vec![0u8; n], 1 => vec![0xffu8; n], _ => r.bytes(n) };
+        ops.push(verify_raw(v, &msg, t, &raw));
+    }
+    let sl = sig_len_of(alg).unwrap();
+    let n = order_of(alg);
+    let half = sl / 2;
+    let pad = |x: &[u8]| { let mut p = vec![0u8; half - x.len().min(half)]; p.extend_from_slice(&x[..x.len().min(half)]); p };
+    let mut n_half = pad(&n);
+    if alg == "ed25519" { n_half.reverse(); }
+    let one = { let mut o = vec![0u8; half]; if alg == "ed25519" { o[0] = 1 } else { o[half - 1] = 1 }; o };
+    let rnd = r.bytes(half);
+    for (a, b) in [(vec![0u8; half], vec![0u8; half]), (one.clone(), one.clone()), (rnd.clone(), vec![0u8; half]), (vec![0u8; half], rnd.clone()),
+                   (n_half.clone(), one.clone()), (one.clone(), n_half.clone()), (vec![0xffu8; half], vec![0xffu8; half]), (rnd.clone(), n_half.clone()),
+                   (rnd.clone(), one.clone()), (one.clone(), rnd.clone())] {
+        let mut raw = a.clone();
+        raw.extend_from_slice(&b);
+        ops.push(verify_raw(v, &msg, t, &raw));
+    }
+    // a valid signature cut, padded, doubled
+    for m in [json!({"trunc": sl - 1}), json!({"trunc": half}), json!({"trunc": 0}), json!({"extend": "00"}), json!({"extend": hex::encode(vec![0u8; sl])}),
+              json!("neg_s"), json!("s_plus_n")] {
+        ops.push(verify_op(v, &msg, t, 0, &msg, t, m));
+    }
+    json!({"kind": "c13:garbage", "keys": keys, "ops": ops})
+}
+
+/// every spelling class of the type string against one key (all 16 algorithms; signing keys with and without the secret)
+fn gen_type(r: &mut Rng, idx: usize, thorough: bool) -> Value {
+    let n_sig = 8;
+    let slot = idx % (n_sig + OTHER_ALGS.len());
+    let (keys, k, signer) = if slot < n_sig {
+        let alg = SIG_ALGS[slot % 4];
+        let keys = vec![base_key(r, alg, idx), json!({"src": if idx % 2 == 0 { "public_of" } else { "jwk_public_of" }, "of": 0})];
+        (keys, if slot < 4 { 0usize } else { 1usize }, Some(0usize))
+    } else {
+        (vec![json!({"alg": OTHER_ALGS[slot - n_sig], "src": "generate"})], 0usize, None)
+    };
+    let ml = r.below(40);
+    let msg = r.bytes(ml);
+    let raw = r.bytes(64);
+    let mut ops = vec![];
+    ops.push(sign_op(k, &msg, None));
+    for t in type_strings(r, thorough) {
+        ops.push(sign_op(k, &msg, Some(t.as_str())));
+        match signer {
+            Some(s) => ops.push(verify_op(k, &msg, Some(t.as_str()), s, &msg, None, Value::Null)),
+            None => ops.push(verify_raw(k, &msg, Some(t.as_str()), &raw)),
+        }
+    }
+    ops.push(verify_raw(k, &msg, None, &raw));
+    json!({"kind": "c13:type", "keys": keys, "ops": ops})
+}
+
+/// several key pairs of all algorithms: every (signer, verifier) pair, default and explicit types of either side
+fn gen_cross(r: &mut Rng, idx: usize, _thorough: bool) -> Value {
+    let mut keys = vec![];
+    let mut algs: Vec<&str> = vec![];
+    for (i, a) in SIG_ALGS.iter().enumerate() {
+        keys.push(base_key(r, a, idx + i));
+        algs.push(a);
+    }
+    // a second key pair of two of the algorithms, one public-only re-import, one non-signing key
+    let a2 = SIG_ALGS[idx % 4];
+    keys.push(base_key(r, a2, idx + 1));
+    algs.push(a2);
+    let a3 = SIG_ALGS[(idx / 4 + 1) % 4];
+    keys.push(base_key(r, a3, idx + 2));
+    algs.push(a3);
+    let p = r.below(4);
+    keys.push(json!({"src": "public_of", "of": p}));
+    algs.push(algs[p]);
+    let other = OTHER_ALGS[idx % OTHER_ALGS.len()];
+    keys.push(json!({"alg": other, "src": "generate"}));
+    algs.push(other);
+    let msg = rand_msg(r, false);
+    let mut ops = vec![];
+    let nk = keys.len();
+    for s in 0..6 {
+        for v in 0..nk {
+            ops.push(verify_op(v, &msg, None, s, &msg, None, Value::Null));
+            ops.push(verify_op(v, &msg, Some(native(algs[s])), s, &msg, None, Value::Null));
+            if sig_len_of(algs[v]).is_some() && algs[v] != algs[s] {
+                ops.push(verify_op(v, &msg, Some(native(algs[v])), s, &msg, None, Value::Null));
+            }
+        }
+        // signing with the type of another algorithm
+        for t in ["EdDSA", "ES256", "ES256K", "ES384"] { ops.push(sign_op(s, &msg, Some(t))); }
+    }
+    for t in [None, Some("EdDSA"), Some("ES256"), Some("ES256K"), Some("ES384"), Some("nope")] {
+        ops.push(sign_op(nk - 1, &msg, t));
+        ops.push(sign_op(nk - 2, &msg, t));
+    }
+    json!({"kind": "c13:cross", "keys": keys, "ops": ops})
+}
+
+pub fn gen(r: &mut Rng, thorough: bool, count: Option<usize>) -> Vec<Value> {
+    let mut out: Vec<Value> = vec![];
+    let plan: [(usize, usize); 6] = if thorough { [(6, 6), (240, 1), (128, 2), (64, 3), (40, 4), (80, 5)] } else { [(6, 6), (24, 1), (16, 2), (16, 3), (20, 4), (12, 5)] };
+    for (n, what) in plan {
+        for i in 0..n {
+            let mut rr = r.fork();
+            out.push(match what {
+                6 => gen_rfc(i),
+                1 => gen_round(&mut rr, i, thorough),
+                2 => gen_flip(&mut rr, i, thorough),
+                3 => gen_garbage(&mut rr, i, thorough),
+                4 => gen_type(&mut rr, i, thorough),
+                _ => gen_cross(&mut rr, i, thorough),
+            });
+        }
+    }
+    if let Some(c) = count {
+        // keep a spread over the kinds
+        let step = (out.len() as f64 / c.max(1) as f64).max(1.0);
+        out = (0..c.min(out.len())).map(|i| out[((i as f64) * step) as usize].clone()).collect();
+    }
+    for (i, c) in out.iter_mut().enumerate() { c["id"] = json!(i); }
+    out
 }
